@@ -1074,8 +1074,44 @@ def r23_cursor_starts(ctx, rule):
                     ok = False
                     ctx.bad(rule, q, U(st)[:70], 'a cursor set from a constant starts at entry 0 of its level: every entry before the start '
                             'index is never combined with anything', None, st, firm=True)
+    # the scan that finds the first populated level (start_ip / start_length) starts at level 0 (seed C04-fb: range(1, max_level + 1)
+    # - every initial n-gram and every length of level 0 is never visited, silently)
+    scans = 0
+    for lname, fn in ctx.repo.modules[MCF].funcs.items():
+        if not lname.startswith('MarkovCracker.') and '.' in lname:
+            continue
+        ps = params(fn)
+        for loop in walk_local(fn):
+            if not (isinstance(loop, ast.For) and isinstance(loop.target, ast.Name) and isinstance(loop.iter, ast.Call)
+                    and call_name(loop.iter) == 'range'):
+                continue
+            v = loop.target.id
+            rets = [r for r in ast.walk(loop) if isinstance(r, ast.Return) and isinstance(r.value, ast.Name) and r.value.id == v]
+            tabs = [x for x in ast.walk(loop) if isinstance(x, ast.Subscript) and isinstance(x.value, ast.Name) and x.value.id in ps
+                    and isinstance(x.slice, ast.Name) and x.slice.id == v]
+            if not rets or not tabs:
+                continue
+            scans += 1
+            q = MCF + '::' + lname
+            ctx.stats['functions'].add(q)
+            a = loop.iter.args
+            if len(a) >= 2:
+                c0 = const(a[0])
+                if c0 is NOCONST:
+                    ok = False
+                    ctx.unk(rule, q, 'first-populated-level scan starts at %s - not a constant' % U(a[0])[:40])
+                elif c0 != 0:
+                    ok = False
+                    ctx.bad(rule, q, 'first-populated-level scan: ' + U(loop.iter)[:60], 'levels are numbered from 0: a scan that starts '
+                            'later never finds the entries of level 0, so start_ip / start_length skip the most probable n-grams and lengths',
+                            None, loop, firm=True)
+            if len(a) == 3 and const(a[2]) != 1:
+                ok = False
+                ctx.unk(rule, q, 'first-populated-level scan with a step: ' + U(loop.iter)[:60])
+    if not ctx.floor(rule, MCF, scans, 1, 'first-populated-level scans in markov_cracker.py'):
+        ok = False
     if ctx.floor(rule, MCF, n, 3, 'cursor assignments in MarkovCracker') and ok:
-        ctx.ok(rule, MCF, 'the %d cursor assignments use index 0 or the loop position' % n)
+        ctx.ok(rule, MCF, 'the %d cursor assignments use index 0 or the loop position; the first-level scan starts at level 0' % n)
 
 
 def r20_omen_config_keys(ctx, rule):
@@ -1173,6 +1209,22 @@ def r19_loaded_model_unfiltered(ctx, rule):
         ctx.ok(rule, q, 'load_rules passes %s to %d readers and neither re-binds nor shrinks any of its tables' % (g, len(loads)))
 
 
+def r26_memo_tables_distinct(ctx, rule):
+    """The memo has one table per length: a key (ip, level) found in the table of length L must have been stored for length L.  A
+    chained assignment or `[{}] * n` binds ONE dict to every length, the key collapses to (ip, level) and a completion cached for
+    one length is served for another (wrong-length, duplicate and missing strings, depending on the order levels were run in)."""
+    from .common import no_aliased_containers
+    no_aliased_containers(ctx, rule, ['lib_guesser/omen/'], 20, 'the OMEN tables and the memo are indexed by length / level: one '
+                          'container bound to several slots merges what belongs to different lengths or levels')
+
+
+def r27_inner_counters(ctx, rule):
+    from .common import inner_counters_reset
+    inner_counters_reset(ctx, rule, ['lib_guesser/omen/'], 1, 'every pass of the level fall-back walks the whole transition list of the '
+                         'lower level: a counter that keeps its value skips the transitions in front of it, the strings behind them are '
+                         'emitted at no level (and the failure is cached), although trainer and scorer give them one')
+
+
 def _shared_rule(mod, name, **kw):
     def run(ctx, rule):
         import importlib
@@ -1192,7 +1244,11 @@ def rules(tier):
             # C15-eb: a second writer of the OMEN memo
             ('C10.R24', _shared_rule('plumbing', 'who_may')),
             # C10-ea / C10-eb: max_level and length_ip exchanged; the emitted string NFC-normalised
-            ('C10.R25', _shared_rule('c10', 'r25_cracker_plumbing'))]
+            ('C10.R25', _shared_rule('c10', 'r25_cracker_plumbing')),
+            # C10-fb: `self.tmto_lookup = [{}] * (max_length + 1)` - one memo dict for every length
+            ('C10.R26', r26_memo_tables_distinct),
+            # C11-fb: `cur_index = 0` hoisted out of `while cur_level >= 0` in _fill_out_parse_tree
+            ('C10.R27', _shared_rule('c10', 'r27_inner_counters'))]
 
 
 META = {
